@@ -102,6 +102,63 @@ CLAIMED = {
         note=NOTE + "CBC (solver) is outside any model: optimality is certified per instance, not for all inputs (partial); HiGHS duals are untrusted hints.",
         technique="Lean 4 theorems (LP weak duality / certificate soundness, reporting order, SIMUS formulas) + per-instance certificates checked by the proved checker + differential check",
     ),
+    "C05": dict(
+        text="Proof: for every kernel of the model (wsm, ratio, refpoint, topsis over the five metrics, wpm, fmf, multimoora) row-permutation "
+             "equivariance (scores follow the alternative), invariance under permuting criteria together with objectives and weights, the "
+             "exact effect of scaling all weights by c > 0 (score scaled / similarity unchanged / constant shift), and that dense ranks "
+             "follow the alternative and are unchanged by strictly increasing maps of the scores; relabeling acts on names only. ELECTRE "
+             "and the transformers in front are covered by the harness only. Tie: both presentations run on the real code and compared by "
+             "label under the margin rule (rank numbers never compared across runs); the Lean model compared with itself exactly.",
+        note=NOTE + "Pairs closer than 2e-9*scale and ill-conditioned pipelines (noise amplified > 1e4) are skipped and counted; ELECTRE/transformer invariance is validated, not proved.",
+        technique="Lean 4 permutation / scaling theorems on the kernel model (Equiv.sum_comp, sup' under permutations) + metamorphic differential check by label",
+    ),
+    "C10": dict(
+        text="Proof: on a record model of to_dict -> _transform_data -> from_mcda_data, each transformer family changes only its declared parts "
+             "(Frame theorems for target-switch scalers, weighters, inverters incl. objectives all max, imputers, filters as row sublists "
+             "with unaltered rows, mktransformer by returned keys, pipelines by induction as the union of the steps' parts); the table of "
+             "keys each concrete class actually rewrites is regenerated from the source on every run and decided against the declared sets. "
+             "Tie: every built-in transformer x target x parameters, user transformers, pipelines: part-by-part bit comparison.",
+        note=NOTE + "A weights-target scaler re-infers dtypes (dtypes=None) on mixed int/float matrices: same values, recorded as observation.",
+        technique="Lean 4 frame theorems on a record model + regenerated written-keys table decided + differential bitwise part comparison",
+    ),
+    "C13": dict(
+        text="Proof: the weighter kernels (equal, std, entropy, CRITIC with Pearson/Spearman, with/without ideal-distance scaling) are proved "
+             "equal to their published formulas, to sum to one, to be non-negative (entropy via Gibbs/Jensen, CRITIC via Cauchy-Schwarz: r <= 1), "
+             "invariant under permutations of alternatives, equivariant under permutations of criteria, independent of the incoming weights "
+             "and of ddof (the factor cancels); the weighter frame. Tie: three-leg check (code / Lean Float model / 50-digit Decimal oracle) "
+             "and permuted presentations compared by label.",
+        note=NOTE + "Perfectly correlated criteria make the CRITIC formula 0/0 (the code returns NaN): outside the formula's domain, excluded by a generator guard and stated as assumption.",
+        technique="Lean 4 theorems over R on the weighter kernels (Jensen, Cauchy-Schwarz, permutation invariance) + three-leg differential check",
+    ),
+    "C15": dict(
+        text="Proof: for the model of SimpleImputer every observed cell keeps its value, no cell is missing afterwards, shape unchanged, and each "
+             "gap holds the configured statistic (mean, median on the sorted arrangement, smallest most-frequent value, constant) of the "
+             "observed values of the same criterion; KNN / iterative imputers enter through the contract Keeps (observed preserved, complete, "
+             "same shape) which transfers to the wrapper; labels, objectives, weights untouched; the constructor-parameter -> sklearn keyword "
+             "table is regenerated from the source by recording the sklearn constructors and decided. Tie: random and exhaustive missing "
+             "patterns vs the model; the contract checked on the real sklearn output of every case.",
+        note=NOTE + "KNN / iterative fill values are scikit-learn's (external): only the contract is used (partial).",
+        technique="Lean 4 theorems on an Option-cell model of imputation + regenerated keyword-forwarding table decided + differential check",
+    ),
+    "C16": dict(
+        text="Proof: pipeline transform / evaluate are the fold of the steps; every split point composes (also through nesting, with the API's "
+             "slice refusals as iff); unique_names (repaired loop) yields pairwise distinct names for EVERY name list and each name resolves "
+             "to its own step, the pre-fix loop is refuted by a decided witness; copy / get_parameters round trip from idempotent constructor "
+             "coercions for all 43 classes, copy(**override) changes only the overridden parameters; the class parameter table is regenerated "
+             "from the source on every run and decided (declared within __init__, required within declared, declared readable). Tie: random "
+             "pipelines vs manual composition at all split points, every class and parameterisation rebuilt and compared on outputs.",
+        note=NOTE + "Step behaviour is abstract in the pipeline theorems (any partial function).",
+        technique="Lean 4 theorems (foldlM append, list induction, string-length termination) + regenerated class table decided + differential check",
+    ),
+    "C19": dict(
+        text="Proof: on the model of RankInvariantChecker (gap table, mutate with the stream of uniform draws as input, repeat x non-best loop, "
+             "missing alternatives) the number and order of evaluations, one-row mutants of non-best alternatives, once per repetition, noise "
+             "direction, bound by the gap, strictness, recorded noise = applied change, labels, determinism in the draws, refusal exactly when "
+             "no gap is positive (the pre-fix loop provably diverges there), and soundness of the executable trace checker. Tie: recording "
+             "decision-maker wrapper, cloned Generator reproducing the draws, the proved trace checker run on every recorded experiment.",
+        note=NOTE + "The order among tied alternatives (unstable pandas sort) is an input of the model; numpy Generator is external.",
+        technique="Lean 4 theorems on a stream-driven model + proved trace checker run on recorded real traces + differential check",
+    ),
 }
 PENDING = "check not built yet (planned in DESIGN.md section 6); not claimed until its model, theorems and correspondence exist"
 
